@@ -1,18 +1,7 @@
-import AranyaV.Proofs.TypeProg
+import AranyaV.Proofs.FoldBind
 import AranyaV.Proofs.LowerCalls
 namespace AranyaV.Lang
 open AranyaV.Gen.Lang
-
-theorem foldl_bind_mono {α β : Type} (f : α → β → Option α) (P : α → α → Prop)
-    (hrefl : ∀ a, P a a) (htrans : ∀ a b c, P a b → P b c → P a c)
-    (hstep : ∀ a b a', f a b = some a' → P a a') :
-    ∀ (l : List β) (a r : α), l.foldl (fun acc q => acc.bind (fun s => f s q)) (some a) = some r → P a r
-  | [], a, r, h => by simp only [List.foldl_nil, Option.some.injEq] at h; subst h; exact hrefl a
-  | b :: l, a, r, h => by
-    simp only [List.foldl_cons, Option.bind_some] at h
-    cases hf : f a b with
-    | none => rw [hf, foldl_bind_none] at h; cases h
-    | some a' => rw [hf] at h; exact htrans _ _ _ (hstep a b a' hf) (foldl_bind_mono f P hrefl htrans hstep l a' r h)
 
 theorem topoVisit_mono (all : List (Nat × List (Nat × Ty))) : ∀ (fuel : Nat) (path done : List Nat) (n : Nat) (r : List Nat),
     topoVisit all fuel path done n = some r → ∀ x ∈ done, x ∈ r
